@@ -167,6 +167,18 @@ def reaching_value(func: ast.AST, use: ast.AST, name: str):
             if isinstance(st, ast.AnnAssign) and isinstance(st.target, ast.Name) and st.target.id == name \
                     and st.value is not None:
                 return st, st.value
+            if isinstance(st, ast.Try) and not any(_defines(x, name) for x in st.orelse + st.finalbody) \
+                    and not any(_defines(h, name) for h in st.handlers):
+                from .control import always_leaves
+
+                if all(always_leaves(h.body) for h in st.handlers):
+                    # the try body completed normally: its last top-level plain assignment reaches
+                    for inner in reversed(st.body):
+                        if isinstance(inner, ast.Assign) and len(inner.targets) == 1 and isinstance(inner.targets[0], ast.Name) \
+                                and inner.targets[0].id == name:
+                            return inner, inner.value
+                        if _defines(inner, name):
+                            return None
             if _defines(st, name):
                 return None
         if isinstance(container, (ast.For, ast.While)) and field == "body":
